@@ -155,6 +155,23 @@ def run_case(case, ctx, mon):
         mon.api(ops.apply_op, h, op)
         agree(mon, plain, handles, kind, universe, cfg, [hname, op])
         mon.count(f"ops_via:{'owner' if hi == 0 else 'view'}")
+        if n_op % 4 == 3:
+            # merges out of a handle (into a fresh ordinary sketch) and into a handle must equal the ordinary sketch's
+            other_name, other_h = handles[(hi + 1) % len(handles)]
+            t_ref, t_h = state.make(cfg), state.make(cfg)
+            t_ref.merge(plain)
+            mon.api(t_h.merge, other_h)
+            d = state.snap_diff(state.snapshot(t_ref, kind), state.snapshot(t_h, kind))
+            mon.check(not d, "merging-a-handle-into-a-fresh-sketch==merging-the-ordinary-sketch", handle=other_name, differs_in=d, after=[hname, op], cfg=cfg)
+            extra = state.make(cfg)
+            extra.add(b"extra-key", 2)
+            if is_log:
+                state.share_draws(plain, other_h)
+            plain.merge(extra)
+            mon.api(other_h.merge, extra)
+            agree(mon, plain, handles, kind, universe, cfg, [other_name, "merge(extra)"])
+            mon.count("merges_through_handles")
+            other_h = t_h = t_ref = extra = None  # no stray reference may keep a handle alive (deletion orders are observed below)
     mon.count(f"cases:{kind}")
     if unaligned(cfg):
         mon.count(f"unaligned_cases:{kind}")
@@ -227,3 +244,4 @@ def floors(mon, ctx):
             mon.floor(f"unaligned cases of {kind}", mon.counters[f"unaligned_cases:{kind}"], 1)
     mon.floor("deletion orders", len(mon.classes["drop_order"]), 2)
     mon.floor("operations through a view", mon.counters["ops_via:view"], 100)
+    mon.floor("merges out of / into handles", mon.counters["merges_through_handles"], 50)
